@@ -1,17 +1,424 @@
-//! module `color` — streams `color.*` (not built yet).
+//! module `color` (serves C12) — colours survive the trip through their raw representation.
+//!
+//! Streams (every result line is compared with the Lean model `EG.Model.Color` instantiated from the
+//! generated `EG.Generated.ColorTable`):
+//!   color.types                 -> name:kind:bpp:storagebits:nbytes:maxr:maxg:maxb;...  (sorted by name;
+//!                                  kind 0 binary 1 gray 2 rgb 3 bgr) — the harness's own type list, read
+//!                                  from the real associated constants, against the translator's table
+//!   color.new  <Type> r g b     -> c=<raw> ch=<r>,<g>,<b> st=<into_storage> be=<bytes> le=<bytes>
+//!   color.gray <Type> l         -> c=<raw> ch=<luma> st=.. be=.. le=..
+//!   color.raw  <Type> v         -> in=<Raw::from_u32(v)> c=<raw of C::from(raw)> ch=<channels> st=.. be=.. le=..
+//!
+//! Oracle (the property text as predicates on the real results; Lean statements mirrored:
+//! `C12.raw_roundtrip`, `into_fits`, `raw_idempotent`, `raw_clears_unused_only`, `new_channels`,
+//! `gray_new_luma`, `new_layout`, `storage_bytes_agree`):
+//!   roundtrip   C::from(Raw::from(c)) == c
+//!   fits        Raw::from(c).into_inner() < 2^BITS_PER_PIXEL
+//!   idempotent  raw -> colour -> raw applied twice changes nothing and the first application only
+//!               clears bits, exactly those outside the channel fields
+//!   channels    new(r,g,b).r() == r mod 2^rbits (..), new(l).luma() == l mod 2^bpp
+//!   layout      raw == r' << rpos | g' << gpos | b' << bpos with the documented positions
+//!               (RGB: blue at bit 0, green above, red on top; BGR: red at bit 0, blue on top)
+//!   bytes       into_storage == raw; big-endian value of to_be_bytes == little-endian value of
+//!               to_le_bytes == into_storage; lengths = size of Bytes; be == reverse(le); ne == le
 use crate::common::*;
+use embedded_graphics::pixelcolor::{
+    raw::{RawData, ToBytes},
+    *,
+};
 
 pub struct M;
+
+/// Uniform view of a colour type for the harness.
+pub trait CT: PixelColor + core::fmt::Debug {
+    const NAME: &'static str;
+    /// 0 binary, 1 gray, 2 rgb, 3 bgr
+    const KIND: u32;
+    const BPP: usize;
+    const STORAGE_BITS: u32;
+    const NBYTES: usize;
+    const MAXES: [u8; 3];
+    /// `Raw::from_u32(v)`: (inner value, colour built from it)
+    fn from_u32(v: u32) -> (u32, Self);
+    fn raw(self) -> u32;
+    fn storage(self) -> u32;
+    fn be(self) -> Vec<u8>;
+    fn le(self) -> Vec<u8>;
+    fn ne(self) -> Vec<u8>;
+    fn channels(self) -> Vec<u8>;
+    fn new3(_r: u8, _g: u8, _b: u8) -> Option<Self> {
+        None
+    }
+    fn new1(_l: u8) -> Option<Self> {
+        None
+    }
+}
+
+macro_rules! ct_common {
+    ($t:ident) => {
+        const NAME: &'static str = stringify!($t);
+        const BPP: usize = <<$t as PixelColor>::Raw as RawData>::BITS_PER_PIXEL;
+        const STORAGE_BITS: u32 = (core::mem::size_of::<<<$t as PixelColor>::Raw as RawData>::Storage>() * 8) as u32;
+        const NBYTES: usize = core::mem::size_of::<<$t as ToBytes>::Bytes>();
+        fn from_u32(v: u32) -> (u32, Self) {
+            let raw = <<$t as PixelColor>::Raw as RawData>::from_u32(v);
+            (raw.into_inner() as u32, <$t>::from(raw))
+        }
+        fn raw(self) -> u32 {
+            let r: <$t as PixelColor>::Raw = self.into();
+            r.into_inner() as u32
+        }
+        fn storage(self) -> u32 {
+            self.into_storage() as u32
+        }
+        fn be(self) -> Vec<u8> {
+            ToBytes::to_be_bytes(self).to_vec()
+        }
+        fn le(self) -> Vec<u8> {
+            ToBytes::to_le_bytes(self).to_vec()
+        }
+        fn ne(self) -> Vec<u8> {
+            ToBytes::to_ne_bytes(self).to_vec()
+        }
+    };
+}
+macro_rules! ct_rgb {
+    ($kind:expr; $($t:ident),*) => {$(
+        impl CT for $t {
+            ct_common!($t);
+            const KIND: u32 = $kind;
+            const MAXES: [u8; 3] = [<$t as RgbColor>::MAX_R, <$t as RgbColor>::MAX_G, <$t as RgbColor>::MAX_B];
+            fn channels(self) -> Vec<u8> { vec![self.r(), self.g(), self.b()] }
+            fn new3(r: u8, g: u8, b: u8) -> Option<Self> { Some(<$t>::new(r, g, b)) }
+        }
+    )*};
+}
+macro_rules! ct_gray {
+    ($($t:ident),*) => {$(
+        impl CT for $t {
+            ct_common!($t);
+            const KIND: u32 = 1;
+            const MAXES: [u8; 3] = [0, 0, 0];
+            fn channels(self) -> Vec<u8> { vec![self.luma()] }
+            fn new1(l: u8) -> Option<Self> { Some(<$t>::new(l)) }
+        }
+    )*};
+}
+ct_rgb!(2; Rgb332, Rgb444, Rgb555, Rgb565, Rgb666, Rgb888);
+ct_rgb!(3; Bgr555, Bgr565, Bgr666, Bgr888);
+ct_gray!(Gray2, Gray4, Gray8);
+impl CT for BinaryColor {
+    ct_common!(BinaryColor);
+    const KIND: u32 = 0;
+    const MAXES: [u8; 3] = [0, 0, 0];
+    fn channels(self) -> Vec<u8> {
+        vec![self.is_on() as u8]
+    }
+}
+
+/// Calls `$f::<T>($args)` for the colour type named `$name`.
+#[macro_export]
+macro_rules! with_color_type {
+    ($name:expr, $f:ident ( $($args:expr),* )) => {
+        match $name {
+            "BinaryColor" => $f::<BinaryColor>($($args),*),
+            "Gray2" => $f::<Gray2>($($args),*),
+            "Gray4" => $f::<Gray4>($($args),*),
+            "Gray8" => $f::<Gray8>($($args),*),
+            "Rgb332" => $f::<Rgb332>($($args),*),
+            "Rgb444" => $f::<Rgb444>($($args),*),
+            "Rgb555" => $f::<Rgb555>($($args),*),
+            "Bgr555" => $f::<Bgr555>($($args),*),
+            "Rgb565" => $f::<Rgb565>($($args),*),
+            "Bgr565" => $f::<Bgr565>($($args),*),
+            "Rgb666" => $f::<Rgb666>($($args),*),
+            "Bgr666" => $f::<Bgr666>($($args),*),
+            "Rgb888" => $f::<Rgb888>($($args),*),
+            "Bgr888" => $f::<Bgr888>($($args),*),
+            other => panic!("unknown colour type {}", other),
+        }
+    };
+}
+
+pub const ALL_TYPES: [&str; 14] = [
+    "BinaryColor", "Gray2", "Gray4", "Gray8", "Rgb332", "Rgb444", "Rgb555", "Bgr555", "Rgb565", "Bgr565", "Rgb666",
+    "Bgr666", "Rgb888", "Bgr888",
+];
+pub const RGB_TYPES: [&str; 10] =
+    ["Rgb332", "Rgb444", "Rgb555", "Bgr555", "Rgb565", "Bgr565", "Rgb666", "Bgr666", "Rgb888", "Bgr888"];
+pub const GRAY_TYPES: [&str; 3] = ["Gray2", "Gray4", "Gray8"];
+
+fn type_line<C: CT>() -> String {
+    format!(
+        "{}:{}:{}:{}:{}:{}:{}:{}",
+        C::NAME,
+        C::KIND,
+        C::BPP,
+        C::STORAGE_BITS,
+        C::NBYTES,
+        C::MAXES[0],
+        C::MAXES[1],
+        C::MAXES[2]
+    )
+}
+pub fn maxes_of<C: CT>() -> [u8; 3] {
+    C::MAXES
+}
+pub fn bpp_of<C: CT>() -> usize {
+    C::BPP
+}
+
+fn bits(max: u8) -> u32 {
+    (max as u32).count_ones()
+}
+
+/// documented bit positions (r, g, b) of an RGB/BGR type with the given channel maxima
+fn documented_positions(kind: u32, m: [u8; 3]) -> [u32; 3] {
+    let (rb, gb, bb) = (bits(m[0]), bits(m[1]), bits(m[2]));
+    if kind == 2 {
+        [gb + bb, bb, 0]
+    } else {
+        [0, rb, rb + gb]
+    }
+}
+
+/// Checks common to every colour value `c`, returns the canonical view text.
+fn views<C: CT>(c: C, ctx: &mut Ctx) -> String {
+    let raw = c.raw();
+    let st = c.storage();
+    let be = c.be();
+    let le = c.le();
+    let ne = c.ne();
+    let ch = c.channels();
+    // roundtrip: colour -> raw -> colour
+    let (raw_again, back) = C::from_u32(raw);
+    ctx.expect(back == c && raw_again == raw, "C12:raw-roundtrip", || {
+        format!("{} {:?}: raw {} -> {:?} (raw {})", C::NAME, c, raw, back, raw_again)
+    });
+    // fits in BITS_PER_PIXEL
+    ctx.expect((raw as u64) < (1u64 << C::BPP), "C12:raw-does-not-fit", || format!("{} raw {} bpp {}", C::NAME, raw, C::BPP));
+    // into_storage, to_be_bytes, to_le_bytes describe the same value
+    let be_val = be.iter().fold(0u64, |a, b| a * 256 + *b as u64);
+    let le_val = le.iter().rev().fold(0u64, |a, b| a * 256 + *b as u64);
+    ctx.expect(st == raw, "C12:into-storage-differs", || format!("{} storage {} raw {}", C::NAME, st, raw));
+    ctx.expect(
+        be_val == st as u64 && le_val == st as u64 && be.len() == C::NBYTES && le.len() == C::NBYTES && C::NBYTES * 8 >= C::BPP,
+        "C12:byte-views-differ",
+        || format!("{} storage {} be {:?} le {:?}", C::NAME, st, be, le),
+    );
+    let mut rev = le.clone();
+    rev.reverse();
+    ctx.expect(rev == be && ne == le, "C12:byte-order", || format!("{} be {:?} le {:?} ne {:?}", C::NAME, be, le, ne));
+    // layout: the raw value is the channels at the documented positions
+    match C::KIND {
+        2 | 3 => {
+            let p = documented_positions(C::KIND, C::MAXES);
+            let want = ((ch[0] as u32) << p[0]) | ((ch[1] as u32) << p[1]) | ((ch[2] as u32) << p[2]);
+            ctx.expect(raw == want, "C12:layout", || format!("{} ch {:?} raw {:#x} expected {:#x}", C::NAME, ch, raw, want));
+            ctx.expect(ch[0] <= C::MAXES[0] && ch[1] <= C::MAXES[1] && ch[2] <= C::MAXES[2], "C12:channel-range", || {
+                format!("{} ch {:?}", C::NAME, ch)
+            });
+        }
+        _ => {
+            ctx.expect(raw == ch[0] as u32, "C12:layout", || format!("{} ch {:?} raw {}", C::NAME, ch, raw));
+        }
+    }
+    format!("c={} ch={} st={} be={} le={}", raw, fmt_list(ch.iter()), st, fmt_list(be.iter()), fmt_list(le.iter()))
+}
+
+fn op_new<C: CT>(r: u8, g: u8, b: u8, ctx: &mut Ctx) -> String {
+    let c = C::new3(r, g, b).expect("not an RGB type");
+    let ch = c.channels();
+    let m = C::MAXES;
+    let want = [
+        (r as u32 % (m[0] as u32 + 1)) as u8,
+        (g as u32 % (m[1] as u32 + 1)) as u8,
+        (b as u32 % (m[2] as u32 + 1)) as u8,
+    ];
+    ctx.expect(ch == want, "C12:new-channel-not-modulo-width", || {
+        format!("{}::new({},{},{}) channels {:?} expected {:?}", C::NAME, r, g, b, ch, want)
+    });
+    if r > m[0] || g > m[1] || b > m[2] {
+        ctx.count("new:channel-out-of-range");
+    } else {
+        ctx.count("new:in-range");
+    }
+    views(c, ctx)
+}
+
+fn op_gray<C: CT>(l: u8, ctx: &mut Ctx) -> String {
+    let c = C::new1(l).expect("not a gray type");
+    let ch = c.channels();
+    let want = (l as u32 % (1u32 << C::BPP)) as u8;
+    ctx.expect(ch[0] == want, "C12:new-channel-not-modulo-width", || format!("{}::new({}) luma {} expected {}", C::NAME, l, ch[0], want));
+    ctx.count("gray");
+    views(c, ctx)
+}
+
+fn op_raw<C: CT>(v: u32, ctx: &mut Ctx) -> String {
+    let (raw0, c) = C::from_u32(v);
+    let raw1 = c.raw();
+    // raw -> colour -> raw only clears bits: exactly the bits outside the channel fields
+    let used: u32 = match C::KIND {
+        2 | 3 => {
+            let p = documented_positions(C::KIND, C::MAXES);
+            ((C::MAXES[0] as u32) << p[0]) | ((C::MAXES[1] as u32) << p[1]) | ((C::MAXES[2] as u32) << p[2])
+        }
+        _ => ((1u64 << C::BPP) - 1) as u32,
+    };
+    ctx.expect(raw1 == raw0 & used, "C12:raw-to-raw-not-clearing-unused-bits", || {
+        format!("{} raw {:#x} -> {:#x}, used mask {:#x}", C::NAME, raw0, raw1, used)
+    });
+    // idempotent
+    let (_, c2) = C::from_u32(raw1);
+    let raw2 = c2.raw();
+    ctx.expect(raw2 == raw1 && c2 == c, "C12:raw-to-raw-not-idempotent", || format!("{} {:#x} -> {:#x} -> {:#x}", C::NAME, raw0, raw1, raw2));
+    ctx.expect((raw0 as u64) < (1u64 << C::BPP), "C12:raw-does-not-fit", || format!("{} from_u32({:#x}) = {:#x}", C::NAME, v, raw0));
+    if raw1 != raw0 {
+        ctx.count("raw:unused-bits-set");
+    } else if (v as u64) >= (1u64 << C::BPP) {
+        ctx.count("raw:bits-beyond-bpp");
+    } else {
+        ctx.count("raw:plain");
+    }
+    format!("in={} {}", raw0, views(c, ctx))
+}
+
+fn chan_values(max: u8, rng: &mut Rng) -> [u8; 3] {
+    [0, max, rng.below(max as u64 + 1) as u8]
+}
 
 impl Module for M {
     fn name(&self) -> &'static str {
         "color"
     }
     fn rule(&self) -> &'static str {
-        "not built yet"
+        "ops: every in-range (r,g,b) of every RGB type of at most 16 bits; every u8 channel argument (incl. out of range) \
+         with the other two channels at {0, max, random} for all RGB types; every u8 luma for the gray types; every raw \
+         value 0..=65535 for all types of at most 16 bits (incl. unused bits of Rgb444/Rgb555/Bgr555 and bits beyond \
+         BITS_PER_PIXEL); for 24-bit types every byte lane exhaustively with the others at {0, 255, random}, all 256 \
+         top-byte patterns of the u32 storage, then seeded random values. Non-trivial = op has a non-zero argument; \
+         distinct = distinct op text."
     }
-    fn generate(&self, _pid: &str, _tier: Tier, _rng: &mut Rng, _emit: &mut dyn FnMut(String)) {}
-    fn execute(&self, op: &str, _ctx: &mut Ctx) -> String {
-        panic!("unknown op {}", op)
+
+    fn generate(&self, _pid: &str, tier: Tier, rng: &mut Rng, emit: &mut dyn FnMut(String)) {
+        emit("color.types".to_string());
+        for name in RGB_TYPES {
+            let m = with_color_type!(name, maxes_of());
+            let bpp = with_color_type!(name, bpp_of());
+            if bpp <= 16 {
+                for r in 0..=m[0] {
+                    for g in 0..=m[1] {
+                        for b in 0..=m[2] {
+                            emit(format!("color.new {} {} {} {}", name, r, g, b));
+                        }
+                    }
+                }
+            }
+            // every u8 argument per channel, others at {0, max, random}
+            for lane in 0..3 {
+                let o1 = chan_values(m[(lane + 1) % 3], rng);
+                let o2 = chan_values(m[(lane + 2) % 3], rng);
+                for k in 0..3 {
+                    for v in 0..=255u32 {
+                        let mut a = [0u32; 3];
+                        a[lane] = v;
+                        a[(lane + 1) % 3] = o1[k] as u32;
+                        a[(lane + 2) % 3] = o2[k] as u32;
+                        emit(format!("color.new {} {} {} {}", name, a[0], a[1], a[2]));
+                    }
+                }
+            }
+            let n = match (tier, bpp > 16) {
+                (Tier::Quick, true) => 20_000,
+                (Tier::Quick, false) => 2_000,
+                (Tier::Thorough, true) => 250_000,
+                (Tier::Thorough, false) => 20_000,
+            };
+            for _ in 0..n {
+                let x = rng.next();
+                emit(format!("color.new {} {} {} {}", name, x & 255, (x >> 8) & 255, (x >> 16) & 255));
+            }
+        }
+        for name in GRAY_TYPES {
+            for l in 0..=255 {
+                emit(format!("color.gray {} {}", name, l));
+            }
+        }
+        for name in ALL_TYPES {
+            let bpp = with_color_type!(name, bpp_of());
+            if bpp <= 16 {
+                let top = if bpp <= 8 { 1024 } else { 65536 };
+                for v in 0..top {
+                    emit(format!("color.raw {} {}", name, v));
+                }
+                // bits beyond the storage type
+                for _ in 0..500 {
+                    emit(format!("color.raw {} {}", name, rng.next() as u32));
+                }
+            } else {
+                for lane in 0..4 {
+                    for k in 0..3 {
+                        let others: [u32; 4] = match k {
+                            0 => [0; 4],
+                            1 => [255; 4],
+                            _ => [rng.below(256) as u32, rng.below(256) as u32, rng.below(256) as u32, rng.below(256) as u32],
+                        };
+                        for v in 0..=255u32 {
+                            let mut b = others;
+                            b[lane] = v;
+                            emit(format!("color.raw {} {}", name, b[0] | (b[1] << 8) | (b[2] << 16) | (b[3] << 24)));
+                        }
+                    }
+                }
+                let n = if tier == Tier::Quick { 20_000 } else { 250_000 };
+                for _ in 0..n {
+                    emit(format!("color.raw {} {}", name, rng.next() as u32));
+                }
+            }
+        }
+    }
+
+    fn execute(&self, op: &str, ctx: &mut Ctx) -> String {
+        let mut t = Toks::new(op);
+        match t.str() {
+            "color.types" => {
+                let mut v: Vec<String> = Vec::new();
+                for name in ALL_TYPES {
+                    v.push(with_color_type!(name, type_line()));
+                }
+                v.sort();
+                ctx.count("types");
+                v.join(";")
+            }
+            "color.new" => {
+                let name = t.str();
+                let (r, g, b) = (t.u32(), t.u32(), t.u32());
+                if r | g | b != 0 {
+                    ctx.nontrivial(op);
+                }
+                ctx.count(&format!("type:{}", name));
+                with_color_type!(name, op_new(r as u8, g as u8, b as u8, ctx))
+            }
+            "color.gray" => {
+                let name = t.str();
+                let l = t.u32();
+                if l != 0 {
+                    ctx.nontrivial(op);
+                }
+                ctx.count(&format!("type:{}", name));
+                with_color_type!(name, op_gray(l as u8, ctx))
+            }
+            "color.raw" => {
+                let name = t.str();
+                let v = t.u32();
+                if v != 0 {
+                    ctx.nontrivial(op);
+                }
+                ctx.count(&format!("type:{}", name));
+                with_color_type!(name, op_raw(v, ctx))
+            }
+            other => panic!("unknown op {}", other),
+        }
     }
 }
